@@ -16,7 +16,7 @@ from hypothesis import strategies as st
 from vlib import gen_values as gv
 
 DOC_TAGS = [None, None, None, {"!e!": "tag:example.com,2000:"}, {"!e!": "!my-", "!f-1!": "tag:f.org,2001:x/"},
-            {"!!": "tag:example.com,2000:"}, {"!": "!my-"}, {"!e!": "tag:\xe9x.org,2000:"}]
+            {"!!": "tag:example.com,2000:"}, {"!": "!my-"}, {"!e!": "tag:\xe9x.org,2000:"}, {"!e0!": "tag:example.com,2000:", "!9_z!": "!my-"}]
 
 SCALAR_TAGS = [None, None, None, "!", "!local", "!local/x-y", "tag:yaml.org,2002:str", "tag:yaml.org,2002:int",
                "tag:yaml.org,2002:null", "tag:example.com,2000:\xe9/x", "tag:example.com,2000:app/foo",
